@@ -118,6 +118,12 @@ def c07(tier, seed, only=None):
         if "join" not in json.dumps(s.wf):
             continue
         jobs.append(job(s, bounded(s, tier, dict(horizon=60), big=(None, None), huge=(3, 5)), mons))
+    # a pause that lands while the last inbound branch is in flight: the join is left partial and the
+    # workflow completes (or must fail) on the resume request
+    for s in gen.f2_all(tier):
+        if "join" in json.dumps(s.wf) and "fanin-m2-" in s.name and not gen.is_huge(s) and (
+                tier != "quick" or "-l1" in s.name):
+            jobs.append(job(s, dict(horizon=60, pause=1, resume=1, dev=3 if tier == "quick" else 4), mons))
     dev = 2 if tier == "quick" else 3
     for s in gen.f3_all():
         if "join" not in json.dumps(s.wf):
